@@ -78,6 +78,93 @@ def _scratch_root():
     return checklib.scratch_root(CID)
 
 
+UNITS = {"quick": 64, "thorough": 512}          # work units of part a (short-lived worker processes)
+UNIT_TIMEOUT = {"quick": 300, "thorough": 900}  # wall seconds after which a unit counts as hung
+
+
+def run_units(binp, test, tier, deadline_s, scratch):
+    """Part a: UNITS[tier] worker processes, WORKERS at a time. Unit u executes the u-th contiguous block of the sequence
+    list (shortest sequences first). A unit that hangs (Go 1.25.0 runtime, see notes/C05.md) or dies is started once more;
+    units not started before the deadline are reported as not covered (exhaustive: false)."""
+    import array, subprocess
+    units = int(os.environ.get("C05_UNITS", UNITS[tier]))
+    t0 = time.time()
+    seed = os.environ.get("VERIF_SEED", "0")
+    todo = list(range(units))
+    tries = {u: 0 for u in todo}
+    running = {}  # unit -> (proc, wdir, logfile, start)
+    reports, not_started, retried = {}, [], []
+
+    def start(u):
+        wdir = os.path.join(scratch, "u%d-%d" % (u, tries[u]))
+        os.makedirs(wdir, exist_ok=True)
+        env = checklib.goenv()
+        left = max(30, int(deadline_s - (time.time() - t0)))
+        env.update(VERIF_TIER=tier, VERIF_SEED=seed, VERIF_SHARD=str(u), VERIF_NSHARD=str(units),
+                   VERIF_OUT=os.path.join(wdir, "report.json"), VERIF_SCRATCH=os.path.join(wdir, "s"),
+                   VERIF_DEADLINE_S=str(left), VERIF_REPO=checklib.REPO, TMPDIR=wdir, GOMAXPROCS="2")
+        cmd = ["bash", "-c", 'ulimit -v %d; exec "$@"' % (24 * 1024 * 1024), "w",
+               binp, "-test.run", "^" + test + "$", "-test.timeout", "0", "-test.count", "1"]
+        lf = open(os.path.join(wdir, "log.txt"), "w")
+        tries[u] += 1
+        running[u] = (subprocess.Popen(cmd, cwd=wdir, env=env, stdout=lf, stderr=subprocess.STDOUT), wdir, lf, time.time())
+
+    def fail(u, wdir, why):
+        keep = os.path.join(checklib.build_dir(CID), "failed-unit-%d.log" % u)
+        shutil.copy(os.path.join(wdir, "log.txt"), keep)
+        for q in running.values():
+            if q[0].poll() is None:
+                q[0].kill()
+        tail = open(keep, errors="replace").read()[-4000:]
+        checklib.tool_error("unit %d of C05 part a %s twice (log kept at %s):\n%s" % (u, why, keep, tail))
+
+    while todo or running:
+        while todo and len(running) < WORKERS:
+            u = todo.pop(0)
+            if tries[u] == 0 and time.time() - t0 > deadline_s:
+                not_started.append(u)
+                continue
+            start(u)
+        time.sleep(0.5)
+        for u in list(running):
+            p, wdir, lf, st = running[u]
+            rc = p.poll()
+            hung = rc is None and time.time() - st > UNIT_TIMEOUT[tier]
+            if rc is None and not hung:
+                continue
+            if hung:
+                p.kill()
+                p.wait()
+            lf.close()
+            del running[u]
+            rp = os.path.join(wdir, "report.json")
+            if not hung and rc == 0 and os.path.exists(rp):
+                rep = json.load(open(rp))
+                a = array.array("Q")
+                if os.path.exists(rp + ".distinct"):
+                    with open(rp + ".distinct", "rb") as fh:
+                        a.frombytes(fh.read())
+                rep["_distinct"] = set(a)
+                reports[u] = rep
+                shutil.rmtree(wdir, ignore_errors=True)
+                continue
+            why = "hung (no exit after %d s)" % UNIT_TIMEOUT[tier] if hung else "exited %s" % rc
+            if tries[u] >= 2:
+                fail(u, wdir, why)
+            checklib.log("unit %d %s; starting it once more" % (u, why))
+            retried.append(u)
+            todo.insert(0, u)
+    out = [reports[u] for u in sorted(reports)]
+    if not_started and out:
+        out[0].setdefault("notes", []).append(
+            "deadline: %d of %d work units (the longest sequences) were not started: units %d..%d" % (
+                len(not_started), units, min(not_started), max(not_started)))
+        out[0]["exhaustive"] = False
+    if out:
+        out[0].setdefault("counters", {})["units_restarted_after_hang_or_crash"] = len(retried)
+    return out
+
+
 def _which_binary(replay_path):
     rc = json.load(open(replay_path)).get("replay") or {}
     return BINARIES[1] if rc.get("part") == "b" else BINARIES[0]
@@ -115,13 +202,16 @@ def run(tier, replay):
             t1 = time.time()
             sub = os.path.join(scratch, name)
             os.makedirs(sub, exist_ok=True)
-            dl = deadline if name == "a" else min(deadline, 600)
-            per_part[name] = checklib.run_workers(CID, binp, test, tier, WORKERS, dl, sub, extra_env={"GOMAXPROCS": "2"})
+            if name == "a":
+                per_part[name] = run_units(binp, test, tier, deadline, sub)
+            else:
+                per_part[name] = checklib.run_workers(CID, binp, test, tier, WORKERS, min(deadline, 600), sub,
+                                                      extra_env={"GOMAXPROCS": "2"})
             wall[name] = round(time.time() - t1, 1)
             checklib.log("part %s workers done in %.1fs" % (name, wall[name]))
         # interleave the parts so that the kept samples show both kinds of sequences
         reports = []
-        for i in range(WORKERS):
+        for i in range(max(len(v) for v in per_part.values())):
             for name in per_part:
                 if i < len(per_part[name]):
                     reports.append(per_part[name][i])
